@@ -75,9 +75,11 @@ theorem transfer_tail {db : Db} {s3 s5 sF : JState} {src : Addr} {fa : Acct} {v 
     (hspec : sF.spec = s5.spec) (hpre : sF.preloaded = s5.preloaded) (hlogs : sF.logs = s5.logs)
     (hundo : undoTs (sdOf s3) (absT db sF) es = setBal (absT db s5) (absT db s3).balance)
     (hz : ∀ a, Entry.accountCreated a ∈ es → ∀ k, db.storage a k = 0)
-    (hbF : BalOk (absT db s3) → BalOk (absT db sF)) :
+    (hbF : BalOk (absT db s3) → BalOk (absT db sF))
+    (hnA : ∀ b, Entry.accountWarmed b ∉ es := by simp)
+    (hnS : ∀ b k, Entry.storageWarmed b k ∉ es := by simp) :
     Pushes db s3 sF (es ++ td) := by
-  refine ⟨fun t r ht => ?_, ?_, ?_, ?_, ?_, ?_, hbF⟩
+  refine ⟨fun t r ht => ?_, ?_, ?_, ?_, ?_, ?_, hbF, ?_, ?_⟩
   · rw [hjF _ _ (p45.journal t r (by simpa using ht)), List.append_assoc]
   · rw [hspec, p45.spec]; rfl
   · rw [hpre, p45.pre]; rfl
@@ -89,6 +91,12 @@ theorem transfer_tail {db : Db} {s3 s5 sF : JState} {src : Addr} {fa : Acct} {v 
   · intro a ha; rcases List.mem_append.1 ha with h | h
     · exact hz a h
     · obtain ⟨b, hb⟩ := htd _ h; cases hb
+  · intro b hb; rcases List.mem_append.1 hb with h | h
+    · exact absurd h (hnA b)
+    · obtain ⟨c, hc⟩ := htd _ h; cases hc
+  · intro b k hb; rcases List.mem_append.1 hb with h | h
+    · exact absurd h (hnS b k)
+    · obtain ⟨c, hc⟩ := htd _ h; cases hc
 
 
 theorem bal_transfer_undo (B : Addr → Nat) (src dst : Addr) (v : Nat) (hb : B src < W) (hv : v ≤ B src)
